@@ -18,6 +18,20 @@ CONTRACTS_DIR = os.path.join(VERIF, "contracts")
 KNOWN = os.path.join(VERIF, "known_findings.json")
 
 
+def install_arena_cache():
+    """optional: keep CPython's 16 KiB frame-stack chunks on a free list instead of mmap/munmap-ing one at
+    every chunk-boundary crossing of the (deeply recursive) interpreter -- see native/arena_cache.c"""
+    so = os.path.join(VERIF, ".venv", "arena_cache.so")
+    if os.environ.get("PYVC_NO_ARENA_CACHE") or not os.path.exists(so):
+        return False
+    try:
+        import ctypes
+        ctypes.PyDLL(so).pyvc_install_arena_cache()
+        return True
+    except Exception:  # noqa
+        return False
+
+
 def load_contracts():
     from . import api, verify, specmodels, extmodels  # noqa: F401
     if VERIF not in sys.path:
@@ -268,6 +282,7 @@ def run_script(path, timeout=120):
 
 
 def main(argv=None):
+    install_arena_cache()
     ap = argparse.ArgumentParser()
     ap.add_argument("prop")
     ap.add_argument("--tier", default=os.environ.get("VERIF_TIER", "quick"))
@@ -278,6 +293,7 @@ def main(argv=None):
     ap.add_argument("--no-evidence", action="store_true")
     args = ap.parse_args(argv)
     tier = "thorough" if args.tier == "thorough" else "quick"
+    os.environ["VERIF_TIER"] = tier          # tables (bounded companions) read their depth from it
     seed = int(os.environ.get("VERIF_SEED", "0") or 0)
     prop = args.prop
 
